@@ -156,6 +156,15 @@ CLAIMS = {
             "Trusted: engines B/C, guard table in sa/refs/wire_semantics.py.",
             "abstract interpretation of the generator + guard extraction/dominance comparison with a reference table",
             "B+C", "DESIGN.md section 4, C16"),
+    "C17": ("other",
+            "Must-reject analysis: the generator is interpreted over every ill-formed shape of the lattice (as classified by an "
+            "independent oracle of the grammar's rules, sa/refs/grammar_rules.py) in every placement, over ordered pairs/triples "
+            "of instruction groups for the context rules (through chunked and case scopes), and over ill-formed spec trees for "
+            "the file-level rules; every evaluation path must end in an exception, and no except clause on the way to the "
+            "caller of generate() swallows it. Each catalogue rule must be exercised (vacuity guard).",
+            "Trusted: engine C, the oracle in sa/refs/grammar_rules.py, the shape/pair/tree families as a cover of the catalogue.",
+            "abstract interpretation of the generator over ill-formed abstract specs (all paths must raise) + handler rule",
+            "A+C", "DESIGN.md section 4, C17"),
     "C18": ("other",
             "Determinism: static rules on the generator (no nondeterministic source; every iteration over a set ends in an "
             "order-insensitive sink or sorted(), flow-sensitively; accumulators cleared in finally; indexing never resolves "
@@ -190,7 +199,7 @@ CLAIMS = {
             "D", "DESIGN.md section 4, C20"),
 }
 
-NOT_YET = "check not built yet in this session (engine stage pending, see DESIGN.md section 8); no proxy is substituted"
+NOT_YET = "no check is registered for this property"
 
 
 def main():
